@@ -82,8 +82,12 @@ func (check) Enumerate(tier string, seed int64, group int, yield func(core.Case)
 	}
 	for _, s := range all[lo:hi] {
 		for n := 0; n <= maxN; n++ {
-			for _, api := range []string{"Node", "Value"} {
+			for _, api := range []string{"Node", "Value", "Node,negative-keys", "Value,negative-keys"} {
 				s, n, api := s, n, api
+				neg := strings.HasSuffix(api, ",negative-keys")
+				if neg && (n == 0 || !hasIntKeyMap(s)) {
+					continue // variant: every integer map key of the initial value is negative
+				}
 				d := depth
 				if n == 3 {
 					d = 2
@@ -92,9 +96,13 @@ func (check) Enumerate(tier string, seed int64, group int, yield func(core.Case)
 					Tag: api,
 					Desc: func() interface{} {
 						g := &tbin.Gen{}
-						return cdesc{s.String(), n, api, d, g.Build(s, n).String()}
+						v := g.Build(s, n)
+						if neg {
+							negateKeys(v)
+						}
+						return cdesc{s.String(), n, api, d, v.String()}
 					},
-					Run: func() core.Result { return search(s, n, api, d) },
+					Run: func() core.Result { return search(s, n, strings.TrimSuffix(api, ",negative-keys"), d, neg) },
 				}
 				if !yield(c) {
 					return
@@ -600,12 +608,53 @@ func spare(b []byte) []byte {
 	return c
 }
 
-func search(s *tbin.Shape, n int, api string, maxDepth int) core.Result {
+func hasIntKeyMap(s *tbin.Shape) bool {
+	if s == nil {
+		return false
+	}
+	if s.T == tbin.MAP && (s.Key.T == tbin.BYTE || s.Key.T == tbin.I16 || s.Key.T == tbin.I32 || s.Key.T == tbin.I64) {
+		return true
+	}
+	if hasIntKeyMap(s.Elem) || hasIntKeyMap(s.Key) {
+		return true
+	}
+	for _, f := range s.Fields {
+		if hasIntKeyMap(f.S) {
+			return true
+		}
+	}
+	return false
+}
+
+// negateKeys makes every integer map key negative (k -> -k-1: distinct keys stay distinct, the range fits).
+func negateKeys(v *tbin.Val) {
+	if v.T == tbin.MAP && (v.KT == tbin.BYTE || v.KT == tbin.I16 || v.KT == tbin.I32 || v.KT == tbin.I64) {
+		for _, k := range v.K {
+			if k.I >= 0 {
+				k.I = -k.I - 1
+			}
+		}
+	}
+	for _, e := range v.L {
+		negateKeys(e)
+	}
+	for _, e := range v.K {
+		negateKeys(e)
+	}
+	for _, f := range v.Fs {
+		negateKeys(f.V)
+	}
+}
+
+func search(s *tbin.Shape, n int, api string, maxDepth int, neg bool) core.Result {
 	defer gcSafe()()
 	r := core.Result{Class: "ok"}
 	typed := api == "Value"
 	g := &tbin.Gen{}
 	init := g.Build(s, n)
+	if neg {
+		negateKeys(init)
+	}
 	var d *thrift.TypeDescriptor
 	if typed {
 		if pi := core.Catch(func() { d = tutil.Desc(s) }); pi != nil {
@@ -618,6 +667,9 @@ func search(s *tbin.Shape, n int, api string, maxDepth int) core.Result {
 	var states, transitions, failedOps int64 = 1, 0, 0
 	outcomes := map[string]bool{}
 	what := fmt.Sprintf("%s n=%d api=%s", s, n, api)
+	if neg {
+		what += " negative-keys"
+	}
 	for len(frontier) > 0 {
 		st := frontier[0]
 		frontier = frontier[1:]
